@@ -54,6 +54,10 @@ def run(rep, ctx):
     with rep.guard("C14.getters"):
         getter_semantics(rep, ctx.model, T, "C14.getters")
     rep.floor("C14.getters", 232)
+    rep.rule("C14.memo", "the dataset that keys every table lookup is dropped by reset(), which set_system() calls (no labels of a previous structure)")
+    with rep.guard("C14.memo"):
+        from .. import symrules as _SR
+        _SR.reset_covers_caches(rep, ctx.model, "C14.memo")
     if True:
         rep.rule("C14.conj", "every normalizer maps the reference group onto itself")
         rep.rule("C14.metric", "every normalizer preserves a generic metric of the crystal system")
@@ -63,6 +67,10 @@ def run(rep, ctx):
         TO.norm_metric(rep, T, "C14.metric")
         TO.norm_perm(rep, T, "C14.perm")
         TO.norm_closure(rep, T, "C14.closure")
+        rep.rule("C14.letters", "every tabulated position carries the letter the reference Wyckoff database (spglib) assigns to an orbit placed on it")
+        with rep.guard("C14.letters"):
+            TO.letter_reference(rep, T, "C14.letters")
+        rep.floor("C14.letters", 1700)
         rep.floor("C14.conj", 800)
         rep.floor("C14.perm", 6000)
         rep.floor("C14.closure", 230)
@@ -277,10 +285,14 @@ META = {
             "Wyckoff positions, all normalizers) is checked with exact arithmetic against spglib's Hall database - "
             "labels, expression/matrix/constant agreement, orbit closure, normalizer shape, handedness, "
             "conjugation, metric preservation, induced letter permutations and closure (all in both tiers; thorough adds the rule self-validation on broken copies). The space is finite, so "
-            "enumeration is a proof relative to the reference; plus def-use provenance of the lookup keys."
+            "enumeration is a proof relative to the reference; plus def-use provenance of the lookup keys. The letter of each of the 1731 positions is "
+            "compared with the letter spglib's Wyckoff database assigns to a probe orbit built from the literal table entry (C14.letters: the only obligation "
+            "that calls spglib's symmetry finder - on table data, never on matid code - and therefore uses floating point with symprec 1e-5), and the dataset "
+            "memo that keys every lookup must be dropped by reset() (C14.memo)."
             " Also: the label getters are constant-folded over the 230 table values (e.g. the side-centring merge of get_bravais_lattice) and the application of the tabulated transformation is checked as x' = R x + t (affine normal form), since 'permutes the letters exactly as tabulated' is about what the code does with the entry.",
     "note": "trusted base: spglib's Hall database as the International Tables in the standard setting (lowest Hall "
             "number per group); CPython ast, fractions, numpy integer arithmetic; the checker itself. Floats in the "
-            "table are taken as 8-digit roundings of multiples of 1/24.",
+            "table are taken as 8-digit roundings of multiples of 1/24. C14.letters additionally trusts spglib.get_symmetry_dataset (Wyckoff database and "
+            "symmetry search on exact probe crystals).",
     "technique": "exact-arithmetic table obligations over ast-extracted literals + def-use key provenance",
 }
